@@ -88,6 +88,47 @@ func origin(v ssa.Value) ssa.Value {
 	return v
 }
 
+// originNN is origin for uses where a nil/zero alternative is irrelevant (the value is only used where it has been
+// tested): a helper with several returns resolves to its only non-constant result.
+func originNN(v ssa.Value) ssa.Value {
+	for i := 0; i < 8; i++ {
+		v = origin(v)
+		var callee *ssa.Function
+		idx := 0
+		switch x := v.(type) {
+		case *ssa.Call:
+			callee = x.Call.StaticCallee()
+		case *ssa.Extract:
+			if c, ok := x.Tuple.(*ssa.Call); ok {
+				callee, idx = c.Call.StaticCallee(), x.Index
+			}
+		}
+		if !isHelper(callee) {
+			return v
+		}
+		var only ssa.Value
+		n := 0
+		allInstrs(callee, func(in ssa.Instruction) {
+			rt, ok := in.(*ssa.Return)
+			if !ok || idx >= len(rt.Results) {
+				return
+			}
+			if _, isC := rt.Results[idx].(*ssa.Const); isC {
+				return
+			}
+			if only != rt.Results[idx] {
+				only = rt.Results[idx]
+				n++
+			}
+		})
+		if n != 1 {
+			return v
+		}
+		v = only
+	}
+	return v
+}
+
 func uniqueReturn(fn *ssa.Function) *ssa.Return {
 	var rets []*ssa.Return
 	allInstrs(fn, func(in ssa.Instruction) {
@@ -174,4 +215,48 @@ func allPathsPass(fn *ssa.Function, target ssa.Instruction, via func(ssa.Instruc
 		return false, "the instruction is not reachable from the entry"
 	}
 	return ok, ""
+}
+
+// owners: the functions of the reference tree on whose behalf f runs — f itself, or, for a helper, every known
+// function that reaches it through helper-only call chains.
+func (w *World) owners(f *ssa.Function) []*ssa.Function {
+	seen := map[*ssa.Function]bool{}
+	var out []*ssa.Function
+	var visit func(g *ssa.Function, depth int)
+	visit = func(g *ssa.Function, depth int) {
+		if seen[g] {
+			return
+		}
+		seen[g] = true
+		if !isHelper(g) || depth > 4 {
+			out = append(out, g)
+			return
+		}
+		sites := w.callSitesOf(g)
+		if len(sites) == 0 {
+			out = append(out, g)
+			return
+		}
+		for _, c := range sites {
+			visit(c.Parent(), depth+1)
+		}
+	}
+	visit(f, 0)
+	return out
+}
+
+// ownedOnlyBy: every owner of f has one of the given keys.
+func (w *World) ownedOnlyBy(f *ssa.Function, keys ...string) bool {
+	for _, o := range w.owners(f) {
+		ok := false
+		for _, k := range keys {
+			if w.funcKey(o) == k {
+				ok = true
+			}
+		}
+		if !ok {
+			return false
+		}
+	}
+	return true
 }
